@@ -5221,6 +5221,21 @@ class TreeSequence:
             return Interval(int(left), int(right))
         return Interval(left, right)
 
+    def _site_id_range(self, interval):
+        # IDs [start, stop) of the sites with interval.left <= position < interval.right.
+        # np.searchsorted compares in floating point, which is inexact for integer
+        # bounds beyond 2**53, so the result is corrected with exact comparisons.
+        position = self.sites_position
+        out = []
+        for bound in interval:
+            j = int(np.searchsorted(position, bound))
+            while j < len(position) and float(position[j]) < bound:
+                j += 1
+            while j > 0 and float(position[j - 1]) >= bound:
+                j -= 1
+            out.append(j)
+        return out
+
     def _haplotypes_array(
         self,
         *,
@@ -5233,7 +5248,7 @@ class TreeSequence:
         if missing_data_character is None:
             missing_data_character = "N"
 
-        start_site, stop_site = np.searchsorted(self.sites_position, interval)
+        start_site, stop_site = self._site_id_range(interval)
         H = np.empty(
             (
                 self.num_samples if samples is None else len(samples),
@@ -5478,7 +5493,7 @@ class TreeSequence:
             start = 0
             stop = self.num_sites
         else:
-            start, stop = np.searchsorted(self.sites_position, interval)
+            start, stop = self._site_id_range(interval)
 
         if copy:
             for site_id in range(start, stop):
